@@ -68,6 +68,32 @@ def run(c):
     rnd = random.Random(c.seed + 17)
     pairs = diffs = 0
     nsyms = 0
+    # footprint of a call on one context: every data stream type of the configuration gets its own runner (contexts of
+    # different types have different sizes); the runner keeps a canary right after the context structure and reports
+    # any byte of it that a call (barectf_init included) changes
+    fp = {'data_stream_types_run': 0, 'histories': 0, 'overruns': 0}
+    work = common.scratch()
+    for cs in cases:
+        for dd in cs.ir['dsts']:
+            if dd['name'] == cs.dname:
+                exe, oa, recs, hdr, sizes = cs.exe, cs.openargs, cs.recs, cs.hdr, cs.sizes
+            else:
+                exe, _files = hrt.build_runner(cs.cfg, cs.ir, dd['name'], os.path.join(work, f'fp{cs.seed}_{dd["name"]}'))
+                if exe is None:
+                    continue
+                oa, recs = hrt.gen_pool(rnd, cs.ir, dd['name'], nrec=4)
+                hdr, sizes = hrt.probe(exe, cs.ir, dd['name'], oa, recs)
+            fp['data_stream_types_run'] += 1
+            hs = [hrt.gen_history(rnd, cs.ir, dd['name'], oa, recs, hdr, sizes) for _ in range(3)]
+            for h, lines in zip(hs, hrt.run_impl(exe, cs.ir, dd['name'], hs)):
+                fp['histories'] += 1
+                if any(l.startswith('ctx-overrun') for l in lines):
+                    fp['overruns'] += 1
+                    if not c.violations:
+                        c.violation({'property': 'C17', 'kind': 'a call on one context writes past the end of its context structure '
+                                     '(into whatever the platform stores next to it: another context)', 'config_yaml': cs.text,
+                                     'dst': dd['name'], 'history': h, 'impl_log': [l for l in lines if not l.startswith('dl ')][:12]})
+    c.coverage['correspondence']['context footprint (canary after the context structure, every data stream type)'] = fp
     for cs in cases:
         bad, syms = nm_check(cs, None)
         nsyms += len(syms)
